@@ -16,7 +16,7 @@ NONE = "```(None)```"  # the project's NoneStr
 SHAPES = {
     "int": [ABSENT, 0, 5, -3],
     "float": [ABSENT, 2.5, -1e-07],
-    "str": [ABSENT, "s", "two words", "train|test"],
+    "str": [ABSENT, "s", "two words", "train|test", ""],
     "bool": [ABSENT, True, False],
     "Optional[int]": [ABSENT, NONE, 7],
     "Optional[str]": [NONE, "x"],
